@@ -163,6 +163,52 @@ Theorem unknown_view_refused_by_server e c t v x :
 Proof. exact (server_unknown e c t v x). Qed.
 Print Assumptions unknown_view_refused_by_server.
 
+(* ---- where the rendered attributes travel ---- *)
+
+(* A response that carries the attributes m in headers / cookies: for a defined view the
+   server sends the restriction of the result, split in two: the carried part holds exactly the
+   attributes of m, the body none of them, together they hold every attribute of the
+   restriction with its value, and every key of either part is an attribute of the view. *)
+Theorem response_split_exact e c t fixed chosen m fs :
+  has_view e t (selected fixed chosen) = true ->
+  exists h fs', restrict e (false, t, selected fixed chosen) (VObj fs) = VObj fs' /\
+    server_wire e c t fixed chosen m (VObj fs) = WResp h (hdr_f m fs') (VObj (body_f m fs')) /\
+    (forall a, vfind fs' a = if mem_name a m then vfind (hdr_f m fs') a else vfind (body_f m fs') a) /\
+    (forall a, mem_name a m = true -> has_field (body_f m fs') a = false) /\
+    (forall a, mem_name a m = false -> has_field (hdr_f m fs') a = false).
+Proof.
+  intros Hv. destruct (server_wire_shape e c t fixed chosen m fs Hv) as (h & fs' & Hr & Hw).
+  exists h, fs'. split; [exact Hr|]. split; [exact Hw|]. split; [exact (split_loses_nothing m fs')|].
+  split; [exact (body_has_no_carried m fs') | exact (hdr_has_only_carried m fs')].
+Qed.
+Print Assumptions response_split_exact.
+
+Theorem wire_parts_only_view_attrs e k r l m fs fs' a :
+  entries e k = Some (r, l) -> restrict e k (VObj fs) = VObj fs' ->
+  In a (keys (hdr_f m fs') ++ keys (body_f m fs')) -> listed l a = true /\ has_attr r a = true.
+Proof. exact (wire_parts_in_view e k r l m fs fs' a). Qed.
+Print Assumptions wire_parts_only_view_attrs.
+
+(* ---- the generated view constructors agree with the projected body types ---- *)
+
+(* new<T>View<V> / new<T><V> touch exactly the attributes the view lists (that the type has),
+   and the constructor they call for a result-type or collection attribute is the one of the
+   very node the projection of T under V holds at that attribute: what the constructor fills
+   is what the projected response body type can carry, at every attribute. *)
+Theorem constructors_touch_view_attributes e t v r l plan a :
+  entries e (false, t, v) = Some (r, l) -> ctor_plan e t v = Some plan ->
+  (In a (map fst plan) <-> listed l a = true /\ has_attr r a = true).
+Proof. exact (ctor_plan_names e t v r l plan a). Qed.
+Print Assumptions constructors_touch_view_attributes.
+
+Theorem constructors_agree_with_projection e n t v r l plan a c t' u :
+  entries e (false, t, v) = Some (r, l) -> ctor_plan e t v = Some plan ->
+  In (a, Some (c, t', u)) plan ->
+  exists fs, sproject (S n) e (false, t, v) = PObj t v fs (req_in false r l) /\
+             pfind fs a = Some (wrapw (if c then WColl else WNone) (sproject n e (false, t', u))).
+Proof. exact (ctor_plan_calls e n t v r l plan a c t' u). Qed.
+Print Assumptions constructors_agree_with_projection.
+
 (* ---- non-vacuity ---- *)
 
 Definition ex_inner : rtype :=
@@ -217,3 +263,12 @@ Example exchange_example :
   server_respond ex_env false "Outer" None "Tiny" x = SFault /\
   server_respond ex_env true "Outer" None "nope" (VList (VLCons x VLNil)) = SFault.
 Proof. repeat split; vm_compute; reflexivity. Qed.
+
+Example split_and_constructors_example :
+  let x := VObj (VFCons "a" (VLeaf 1) (VFCons "inner" (VObj (VFCons "i1" (VLeaf 2) (VFCons "i2" (VLeaf 3) VFNil))) VFNil)) in
+  server_wire ex_env false "Outer" None "tiny" ["a"] x
+    = WResp (Some "tiny") (VFCons "a" (VLeaf 1) VFNil) (VObj (VFCons "inner" (VObj (VFCons "i1" (VLeaf 2) VFNil)) VFNil)) /\
+  ctor_plan ex_env "Outer" "tiny"
+    = Some [("a", None); ("inner", Some (false, "Inner", "tiny")); ("inner2", Some (false, "Inner", "default"));
+            ("arr", None); ("m", None); ("wrap", None)].
+Proof. split; vm_compute; reflexivity. Qed.
